@@ -59,6 +59,9 @@ def ent_code(e):
     return int(e)
 
 
+DEFAULT = object()      # a caller's own default for get_component
+
+
 class Run:
     def __init__(self, lines):
         self.obs = []
@@ -66,6 +69,8 @@ class Run:
         self.objdecl = []
         self.raises = {}
         self.reacts = {}
+        self.traits = {}
+        self.decoy_seed = None
         self.gone = {}          # forgotten objects: oid -> weak reference
         self.ops = []
         self.ents = []
@@ -91,6 +96,11 @@ class Run:
                 self.objdecl.append((int(t[1]), int(d['class'])))
             elif t[0] == 'raise':
                 self.raises[(int(t[1]), t[2], int(t[3]))] = t[4]
+            elif t[0] == 'trait':
+                # trait <class> eq|unhash|falsy ...: Python-level traits of the instances of a class
+                self.traits[int(t[1])] = set(t[2:])
+            elif t[0] == 'decoy':
+                self.decoy_seed = int(t[1])
             elif t[0] == 'react':
                 # react <obj> <method> <k> delete <entity>: the k-th invocation calls world.delete_entity
                 assert t[4] == 'delete'
@@ -147,6 +157,15 @@ class Run:
             if not any(issubclass(b, root) for b in bs):
                 bs = (root,) + bs
             ns2 = {'priority': prio} if kind in ('p', 'upd') else {}
+            tr = self.traits.get(cid, ())
+            if 'eq' in tr or 'unhash' in tr:
+                # value objects: all instances of all such classes are equal (and hash alike); the library must
+                # tell them apart by identity
+                ns2['_eq_group'] = True
+                ns2['__eq__'] = lambda a, b: getattr(b, '_eq_group', False)
+                ns2['__hash__'] = None if 'unhash' in tr else (lambda a: 7)
+            if 'falsy' in tr:
+                ns2['__bool__'] = lambda a: False
             cls = type(f'K{cid}', bs, ns2)
             cls = event_handler(*names, **kw)(cls)
             self.classes.append(cls)
@@ -162,6 +181,14 @@ class Run:
             o._oid = oid
             self.objs[oid] = o
 
+        self.dobjs = {}
+        if self.decoy_seed is not None:
+            for oid, cid in self.objdecl:
+                o = self.classes[cid]()
+                o._oid = oid
+                o._decoy = True
+                self.dobjs[oid] = o
+
         class W(desper.World):
             def dispatch(wself, event_name, *args, **kwargs):
                 run.obs.append('dbeg')
@@ -170,8 +197,67 @@ class Run:
                 finally:
                     run.obs.append('dend')
         self.w = W()
+        # a second, independent world of the same class doing other things in the same process
+        self.w2 = desper.World() if self.decoy_seed is not None else None
+
+    def decoy_step(self, t):
+        """The decoy world runs a perturbed copy of the previous main operation with its own objects, then
+        queries itself; whatever it does or raises is its own business."""
+        import random
+        w, rng = self.w2, random.Random(self.decoy_seed * 7919 + len(self.obs))
+        D = self.dobjs
+        comp_ids = [o for o, c in self.objdecl if self.kinds[c] in ('c', 'ctrl')]
+        proc_ids = [o for o, c in self.objdecl if self.kinds[c] in ('p', 'upd')]
+
+        class Pick(dict):
+            # half of the time another object of the same family than the one the main world used
+            def __getitem__(_, i):
+                pool = comp_ids if i in comp_ids else proc_ids
+                return D[rng.choice(pool)] if pool and rng.random() < 0.5 else D[i]
+        O = Pick()
+        try:
+            k = t[0]
+            if k == 'create':
+                comps = [O[int(x)] for x in split_list(t[2])]
+                if t[1] == 'auto':
+                    w.create_entity(*comps)
+                else:
+                    w.create_entity(*comps, entity_id=ent_py(int(t[1])))
+            elif k == 'add':
+                w.add_component(ent_py(int(t[1])), O[int(t[2])])
+            elif k == 'remove':
+                w.remove_component(ent_py(int(t[1])), self.classes[int(t[2])])
+            elif k == 'delete':
+                w.delete_entity(ent_py(int(t[1])), immediate=bool(rng.randint(0, 1)))
+            elif k == 'process':
+                w.process(int(t[1]) + 1)
+            elif k == 'clear' and rng.random() < 0.3:
+                w.clear()
+            elif k == 'addproc':
+                w.add_processor(O[int(t[1])], rng.choice([-4, -2, 0, 1, 3, 5]))
+            elif k == 'rmproc' and rng.random() < 0.5:
+                w.remove_processor(self.classes[int(t[1])])
+            elif k == 'enable':
+                w.dispatch_enabled = not bool(int(t[1]))
+            elif k == 'dispatch':
+                w.dispatch(t[1], 'decoy')
+        except Exception:        # noqa
+            pass
+        try:
+            for cls, kind in zip(self.classes, self.kinds):
+                if kind in ('c', 'ctrl'):
+                    w.get(cls)
+                    for e in self.ents:
+                        w.get_component(ent_py(e), cls)
+                else:
+                    w.get_processor(cls)
+            list(w.entities), list(w.processors)
+        except Exception:        # noqa
+            pass
 
     def on_call(self, recv, mname, args, kwargs):
+        if getattr(recv, '_decoy', False):
+            return
         oid = recv._oid
         if len(args) == 2 and args[1] is self.w and not kwargs:
             a = f'e{ent_code(args[0])}'
@@ -326,7 +412,9 @@ class Run:
 
         def has_line(pe, t):
             c = w.get_component(pe, self.classes[t])
-            return f'{int(w.has_component(pe, self.classes[t]))} {"None" if c is None else c._oid}'
+            d = w.get_component(pe, self.classes[t], DEFAULT)
+            return (f'{int(w.has_component(pe, self.classes[t]))} {"None" if c is None else c._oid} '
+                    f'{"D" if d is DEFAULT else getattr(d, "_oid", "?")}')
 
         def gp_line(t):
             p = w.get_processor(self.classes[t])
@@ -340,6 +428,10 @@ class Run:
             out.append(f'exists {e} ' + q(lambda: str(int(w.entity_exists(pe)))))
             for t in ctys:
                 out.append(f'has {e} {t} ' + q(lambda: has_line(pe, t)))
+        def getall_line():
+            pairs = sorted(ent_code(e) * 100000 + c._oid for e, c in w.get(object))
+            return ','.join(f'{p // 100000}:{p % 100000}' for p in pairs) or '-'
+        out.append('getall ' + q(getall_line))
         out.append('entities ' + q(lambda: ','.join(map(str, sorted(ent_code(e) for e in w.entities))) or '-'))
         out.append('procs ' + q(lambda: ','.join(str(p._oid) for p in w.processors) or '-'))
         for t in ptys:
@@ -374,10 +466,15 @@ class Run:
     def go(self):
         from harness.core import Timeout
         self.build()
+        prev = None
         for t in self.ops:
             if t[0] == 'snap':
                 self.obs += self.snapshot()
                 continue
+            if self.w2 is not None:
+                if prev is not None:
+                    self.decoy_step(prev)
+                prev = t
             ret = '-'
             try:
                 ret = self.exec_op(t)
